@@ -13,9 +13,18 @@ def run(tier):
     for lens in LENSES[tier]:
         rp.run_lens(lens)
     out.add_replay(rp, "termmachine")
+    ro = replay.Replay("harness.modes:c06ops")
+    ro.run_lens("OpTyping", cfg="OpTyping" if tier == "quick" else "OpTyping_thorough")
+    out.add_replay(ro, "optyping")
     out.coverage = check.replay_coverage(
         rp, "every program of the lenses built under lazy: declared inputs/output vs the "
             "typing rules of Sem.tla; then reinterpreted eagerly: output domain, inputs subset, data shape, bint range")
+    out.coverage["states"] += ro.states
+    out.coverage["transitions"] += ro.transitions
+    out.coverage["traces_validated_against_impl"] += ro.records
+    out.coverage["op_catalogue_cases"] = ro.records
+    out.coverage["op_catalogue_verdicts"] = dict(ro.counts)
+    out.coverage["op_catalogue_declines"] = {"%s/%s" % k: n for k, n in ro.sigs.most_common(8)}
     return out.finish()
 
 
